@@ -233,8 +233,6 @@ def doInstall (s : HSt) (hdr obs : List String) : HSt := Id.run do
     | _, _ => pure ()
     -- C12: every munmap targets something the library mapped itself
     if evs.any (fun e => match e with | Ev.U _ _ o => !o | _ => false) then s := s.fail "c12.foreign-munmap"
-  -- C03: a restore must not ask the kernel to unmap code the library never allocated
-  if foreignUnmapHitsCode s.arenas evs then s := s.fail "c03.unmapped-foreign-code"
     if foreignUnmapHitsCode s.arenas evs then s := s.fail "c03.unmapped-foreign-code"
     -- allocator: oracle answers = what the kernel returned
     let answers : List (Option Nat) := evs.filterMap fun e => match e with | Ev.M _ _ r => some r | _ => none
@@ -311,6 +309,8 @@ def doDrop (s : HSt) (obs : List String) (unwinding : Bool) (verifPanicked : Boo
   if kv obs "owned" != some "0" then s := s.fail "c12.leak"
   if kv obs "maps" != some "0" then s := s.fail "c12.maps-balance"
   if evs.any (fun e => match e with | Ev.U _ _ o => !o | _ => false) then s := s.fail "c12.foreign-munmap"
+  -- C03: a restore must not ask the kernel to unmap code the library never allocated
+  if foreignUnmapHitsCode s.arenas evs then s := s.fail "c03.unmapped-foreign-code"
   let unmaps := evs.filterMap fun e => match e with | Ev.U a l _ => some (a, l) | _ => none
   if unmaps != (match dropOrder with | DropOrder.newestFirst => before.guards.reverse | DropOrder.oldestFirst => before.guards).map (fun (g : Guard) => (g.jit, g.jitLen)) then
     s := s.fail "c12.once"
